@@ -339,7 +339,9 @@ def spec_rows(ctx, R, qname, rows):
             exp = bool(row["abort"](env))
             ends = {x for x, t in out}
             # must abort: no path at all may complete; must continue: no abort on a path decided by the row
-            ok = ("pass" not in ends and "raise" in ends) if exp else (("raise", False) not in out)
+            # (a row that must continue and cannot complete on any path, decided or not, aborts too)
+            ok = ("pass" not in ends and "raise" in ends) if exp else \
+                (("raise", False) not in out and not (ends == {"raise"}))
             if not ok:
                 bad = (env, out, exp, both)
                 break
@@ -369,8 +371,9 @@ def spec_rows(ctx, R, qname, rows):
             if exp and ends == {"raise", "pass"} and both:
                 why = "for %s it aborts on some paths only (undecided: `%s`)" % (shown, norm(both[0].expr)[:70])
             else:
-                why = "for %s it %s but must %s" % (shown, "aborts" if ("raise", False) in out else "continues",
-                                                    "abort" if exp else "continue")
+                why = "for %s it %s but must %s" % (
+                    shown, "aborts" if (("raise", False) in out or ends == {"raise"}) else "continues",
+                    "abort" if exp else "continue")
             ctx.fail(R, fi.qname, what, "%s: %s" % (row.get("msg") or what, why), fi.loc())
         else:
             ctx.ok(R, "%s: %s" % (fi.short, what), fi.loc(), sample={"operands": keys, "assignments": n})
